@@ -1001,8 +1001,10 @@ func genCase(t *rapid.T) *Case {
 		c.Calls = append(c.Calls, call)
 	}
 	c.Prior = gen.Pick(t, priors, "prior")
-	if gen.Chance(t, 1, 12, "hijack") && len(c.Calls) < 8 {
-		c.Calls = append(c.Calls, Call{Op: opHijack})
+	if gen.Chance(t, 1, 8, "hijack") && len(c.Calls) < 8 {
+		// anywhere in the sequence: where the writer cannot be hijacked the call fails and the rest goes on as before
+		at := gen.IntR(t, 0, len(c.Calls), "hijackat")
+		c.Calls = append(c.Calls[:at:at], append([]Call{{Op: opHijack}}, c.Calls[at:]...)...)
 	}
 	return c
 }
@@ -1063,8 +1065,13 @@ func enumerate(t *testing.T, alpha []Call, maxLen int, lims []int, capErrs []boo
 					hijackInside = true
 				}
 			}
-			if !hijackInside {
+			{
 				for _, fam := range families {
+					if hijackInside && fam.hj {
+						// a successful Hijack ends the writer's life: nothing after it is judged. On a writer without that
+						// capability Hijack fails with ErrNotSupported and the calls that follow behave as if it had not been made.
+						continue
+					}
 					for _, lim := range lims {
 						for _, ce := range capErrs {
 							*counter++
